@@ -389,6 +389,11 @@ proof fn lemma_merges_trans(a: Seq<TypeNode>, b: Seq<TypeNode>, c: Seq<TypeNode>
         assert(rep0(b, i) == rep0(b, j));
     }
 }
+/// what merges_only says about two ids (for functions that hide the definition)
+proof fn lemma_merges_use(a: Seq<TypeNode>, b: Seq<TypeNode>, i: int, j: int)
+    requires merges_only(a, b), 0 <= i < a.len(), 0 <= j < a.len(), rep0(a, i) == rep0(a, j),
+    ensures rep0(b, i) == rep0(b, j),
+{}
 /// a step that keeps every old representative relation makes merges_from hold
 proof fn lemma_merges_from(a: Seq<TypeNode>, b: Seq<TypeNode>)
     requires merges_only(a, b),
@@ -2531,6 +2536,30 @@ impl TypeChecker {
 //@| for (a, p) in args.iter().zip(params.iter()) {
                         assert(ctx.inside_pure ==> purity is Pure); //# C04 expression.a_call_inside_a_pure_function_is_only_checked_further_if_the_callee_is_known_to_be_pure
 //@   endghost
+//@   ghost after
+//@| let (actual_ret, implicit_ret) = self.expression_block(*span, body, ctx)?;
+                let ghost blk_ret = actual_ret;
+                let ghost blk_val = implicit_ret;
+//@   endghost
+//@   ghost before 1
+//@| self.unify_option(*span, ctx, Some(ret_ty), actual_ret)
+                let ghost ts_r1 = self.types@;
+                proof { lemma_merges_refl(ts_r1); }
+//@   endghost
+//@   ghost before 2
+//@| self.unify_option(*span, ctx, Some(ret_ty), actual_ret)
+                let ghost ts_r2 = self.types@;
+                proof { lemma_merges_refl(ts_r2); }
+//@   endghost
+//@   ghost before
+//@| no_ret(f_ty)
+                // every value an accepted function literal returns - by `ret` or as the value of its body -
+                // has the declared return type (is in its class); a function declared void returns void
+                proof { if blk_ret is Some { lemma_merges_use(ts_r1, self.types@, blk_ret->Some_0.0 as int, actual_ret->Some_0.0 as int); } }
+                assert(blk_ret is Some ==> rep0(self.types@, blk_ret->Some_0.0 as int) == rep0(self.types@, ret_ty.0 as int)); //# C03 expression.every_explicit_return_of_an_accepted_function_has_the_declared_return_type
+                proof { if blk_val is Some && !(*ret is Resolved && ret->Resolved_0 is Void) { lemma_merges_use(ts_r1, self.types@, blk_val->Some_0.0 as int, actual_ret->Some_0.0 as int); } }
+                assert(blk_val is Some && !(*ret is Resolved && ret->Resolved_0 is Void) ==> rep0(self.types@, blk_val->Some_0.0 as int) == rep0(self.types@, ret_ty.0 as int)); //# C03 expression.the_value_of_the_body_of_an_accepted_function_has_the_declared_return_type
+//@   endghost
 //@   ghost before
 //@| let var = &self.variables[*var];
                 proof { lemma_var_valid(self, *var as int); }
@@ -3214,6 +3243,9 @@ impl TypeChecker {
         ensures final(self).inv2(), final(self).grows(old(self)), //# C07 unify_option.spec.aux2
             r is Ok && r->Ok_0 is Some ==> final(self).valid(r->Ok_0->Some_0), //# C07 unify_option.spec.aux3
             r is Ok ==> (r->Ok_0 is None <==> a is None && b is None), //# C03 unify_option.none_iff_both_none
+            r is Ok && a is Some && b is Some ==> rep0(final(self).types@, a->Some_0.0 as int) == rep0(final(self).types@, b->Some_0.0 as int), //# C02,C03 unify_option.two_given_types_end_up_in_one_class
+            r is Ok && a is Some ==> rep0(final(self).types@, r->Ok_0->Some_0.0 as int) == rep0(final(self).types@, a->Some_0.0 as int), //# C02,C03 unify_option.the_result_is_in_the_class_of_the_first_given_type
+            r is Ok && b is Some ==> rep0(final(self).types@, r->Ok_0->Some_0.0 as int) == rep0(final(self).types@, b->Some_0.0 as int), //# C02,C03 unify_option.the_result_is_in_the_class_of_the_second_given_type
             r is Err ==> r->Err_0.len() >= 1, //# C07 unify_option.an_error_result_is_never_an_empty_list
 //@   endspec
 //@ end
